@@ -18,8 +18,12 @@ Inductive dres :=
 | DNoLink             (* (nil, false, nil): already connected to that peer at that address *)
 | DErr.               (* non-fatal error *)
 
-(* Transport.DialPeer(ctx, x, a) when [who] answers at a *)
-Definition dial_peer (s : amap Z) (x a : Z) (who : ans) : dres * amap Z :=
+(* Transport.DialPeer(ctx, x, a) when [who] answers at a.  [a] is the dial
+   string, [ra] the resolved form sess.RemoteAddr().String() under which
+   HandleSession registers the link (ra = a for canonical addresses; host names
+   and other alias forms resolve to something else): CheckAlreadyConnected and
+   the dialers table use the dial string, the links table the resolved form. *)
+Definition dial_peer (s : amap Z) (x a ra : Z) (who : ans) : dres * amap Z :=
   match aget a s with
   | Some p => if Z.eqb p x then (DNoLink, s) else (DErr, s)   (* CheckAlreadyConnected *)
   | None =>
@@ -27,7 +31,7 @@ Definition dial_peer (s : amap Z) (x a : Z) (who : ans) : dres * amap Z :=
       | Nobody => (DErr, s)
       | Peer p =>
           (* HandleSession: t.links[addr] = lnk; go handler.HandleLinkEstablished(lnk) *)
-          let s' := aset a p s in
+          let s' := aset ra p s in
           (* the dialers do not constrain the remote identity: compare afterwards *)
           if negb (Z.eqb x 0) && negb (Z.eqb p x) then (DErr, s') else (DLink p, s')
       end
@@ -39,25 +43,25 @@ Inductive env :=
 | Drop.                 (* the link registered at the address is lost (handleLinkLost) *)
 
 (* a sequence of independent DialPeer calls / link losses: results in order *)
-Fixpoint calls (s : amap Z) (x a : Z) (e : list env) : list dres * amap Z :=
+Fixpoint calls (s : amap Z) (x a ra : Z) (e : list env) : list dres * amap Z :=
   match e with
   | [] => ([], s)
-  | Drop :: e' => calls (adel a s) x a e'
+  | Drop :: e' => calls (adel ra s) x a ra e'
   | Attempt who :: e' =>
-      let (r, s') := dial_peer s x a who in
-      let (rs, s'') := calls s' x a e' in
+      let (r, s') := dial_peer s x a ra who in
+      let (rs, s'') := calls s' x a ra e' in
       (r :: rs, s'')
   end.
 
 (* Dialer.Execute: retry until DialPeer returns err == nil; the result is what
    the controller's linkDialer stores in its lnk container (None: still retrying) *)
-Fixpoint dialer_loop (s : amap Z) (x a : Z) (e : list env) : option dres * amap Z :=
+Fixpoint dialer_loop (s : amap Z) (x a ra : Z) (e : list env) : option dres * amap Z :=
   match e with
   | [] => (None, s)
-  | Drop :: e' => dialer_loop (adel a s) x a e'
+  | Drop :: e' => dialer_loop (adel ra s) x a ra e'
   | Attempt who :: e' =>
-      match dial_peer s x a who with
-      | (DErr, s') => dialer_loop s' x a e'
+      match dial_peer s x a ra who with
+      | (DErr, s') => dialer_loop s' x a ra e'
       | (r, s') => (Some r, s')
       end
   end.
